@@ -1,11 +1,372 @@
-import Brax.Lemmas.C04
+import Brax.Lemmas.C04Real
+import Mathlib.Tactic.IntervalCases
+/-!
+# C04 — internal forces obey Newton's first and third laws
+
+Models: `Brax/Model/{Com,Spring,Positional}.lean` (tied to `/repo` on every run by
+`harness/corr_C04.py`: exact-lattice for the assembly functions, 1e-9 for whole steps).
+
+All theorems are stated over an arbitrary ordered field `K` with **arbitrary** interpretations of
+the opaque scalar functions (`HasSqrt/HasTrig/HasExp/HasPow/HasF32`): conservation of momentum
+does not depend on what `sqrt`, `atan2`, `exp`, `**` compute, hence neither on the complicated
+per-type joint functions — they hold for arbitrary joint-frame forces and impulses, for every
+forest (any number of links) and every control history.
+
+* `segmentSum_total`                     — Layer B: what `jax.ops.segment_sum` sums to
+* `resolve_total_force`, `resolve_total_force_free_roots`, `accelerationUpdate_total_force_free_roots`
+* `positionUpdate_momentum`
+* `collision_momentum_two_body`, `collide_momentum_spring`, `resolvePosition_momentum`,
+  `resolveVelocity_momentum_positional`, `three_body_averaging_counterexample`
+* `step_momentum_spring`, `step_momentum_positional`, `history_momentum_spring`,
+  `history_momentum_positional`
+* rest case: see the end of the file (`rest_stays_at_rest_*_partial`, `…Stmt`).
+
+Helper lemmas live in `Brax/Lemmas/C04*.lean`.
+-/
+set_option linter.unusedSectionVars false
+set_option linter.unusedVariables false
 namespace Brax.C04
 open Brax MC C04L
 
-/-- placeholder while the development is in progress -/
+/-! ## Layer B -/
+
+/-- **`segment_sum` conserves the total of the in-range entries**: the sum of
+`segment_sum(vals, ids, n)` is the sum of the `vals` whose id lies in `[0, n)`; every other
+entry — the world parent `-1` in particular — is dropped.  Any `n`, any ids, any additive
+commutative monoid. -/
 theorem segmentSum_total {M : Type} [AddCommMonoid M] (vals : List M) (ids : List Int) (n : Nat) :
     (segmentSum vals ids n).sum
       = (((vals.zip ids).filter fun p => decide (0 ≤ p.2 ∧ p.2 < (n : Int))).map (·.1)).sum :=
   C04L.segmentSum_total vals ids n
+
+/-! ## joint forces -/
+section forces
+variable {K : Type} [Field K] [LinearOrder K] [IsStrictOrderedRing K]
+  [HasSqrt K] [HasTrig K] [HasExp K] [HasPow K] [HasF32 K]
+
+/-- **Total force of `joints.resolve` / `acceleration_update`, for ANY joint-frame force.**
+Whatever per-link joint-frame force `jf` enters the assembly, and whatever the poses are, the
+world forces `xf_i` it produces sum to the rotated child forces of the links whose parent index
+is not a link of the system (the rows `segment_sum` drops — the world parent `-1`): each force
+on a child is applied, negated, to its parent (Newton's third law). -/
+theorem resolve_total_force (parents : List Int) (a_p a_c x_i : List (Tf K)) (jf : List (Force K)) :
+    ((Spring.assemble parents a_p a_c x_i jf).map (·.vel)).sum
+      = ∑ i ∈ Finset.range parents.length,
+          if inRange parents.length (parentOf parents i) then 0
+          else rotate (nth jf i).vel (nth a_p i).rot :=
+  assemble_total_force parents a_p a_c x_i jf
+
+/-- … hence with free roots (`jf = 0` there, `_free`) the internal joint forces of the spring
+pipeline sum to **zero**, for every actuator torque `tau` and every state. -/
+theorem resolve_total_force_free_roots (s : Sys K) (h : FreeRooted s) (st : Spring.State K)
+    (tau : List K) :
+    (∑ i ∈ Finset.range s.numLinks, (nth (Spring.resolve s st tau) i).vel) = 0 :=
+  resolve_sum_zero s h st tau
+
+/-- the same for the positional pipeline's `joints.acceleration_update` -/
+theorem accelerationUpdate_total_force_free_roots (s : Sys K) (h : FreeRooted s)
+    (st : Positional.State K) (tau : List K) :
+    (∑ i ∈ Finset.range s.numLinks, (nth (Positional.accelerationUpdate s st tau) i).vel) = 0 :=
+  accUpdate_sum_zero s h st tau
+
+/-- **The positional joint position update conserves `Σ m_i · pos_i`**, for ANY per-link
+correction `dw` that vanishes on the links without a parent link (the free roots, whose
+correction `free_mask` zeroes): `Σ_i m_i · Δpos_i = 0`. -/
+theorem positionUpdate_momentum (parents : List Int) (jsp jsa : K) (a_p a_c x_i : List (Tf K))
+    (iInv : List (M3 K)) (massInv : List K) (dw : List (V3 K × V3 K)) (m : Nat → K)
+    (hlenM : massInv.length = parents.length)
+    (hm : ∀ i, i < parents.length → m i * nthS massInv i = 1)
+    (hpar : ∀ i, i < parents.length → -1 ≤ parentOf parents i ∧ parentOf parents i < (i : Int))
+    (hroot : ∀ i, i < parents.length → parentOf parents i = -1 → (nth dw i).1 = 0) :
+    (∑ i ∈ Finset.range parents.length,
+      V3.smul (m i) ((nth (Positional.positionAssemble parents jsp jsa a_p a_c x_i iInv massInv dw) i).pos
+        - (nth x_i i).pos)) = 0 :=
+  positionAssemble_momentum parents jsp jsa a_p a_c x_i iInv massInv dw m hlenM hm hpar hroot
+
+/-! ## contacts -/
+
+/-- **Two-body contacts conserve the total impulse**, for ANY impulses: for any list of contacts
+all between the same two links `a`, `b`, any per-contact impulses `ps` and counters `isC`, the
+per-link impulses produced by the shared tail of `spring.collisions.resolve` and
+`positional.collisions.resolve_velocity` (`(p, -p)`, lever arm, `segment_sum`, division by
+`num_contacts + 1e-8`) sum to zero — both links are divided by the same number. -/
+theorem collision_momentum_two_body (n : Nat) (xiAt : Int → Tf K) (cs : List (Contact K))
+    (ps : List (Force K)) (isC : List K) (a b : Nat) (ha : a < n) (hb : b < n)
+    (h : ∀ c ∈ cs, c.link1 = (a : Int) ∧ c.link2 = (b : Int))
+    (hps : ps.length = cs.length) (hc : isC.length = cs.length) :
+    (∑ i ∈ Finset.range n, (nth (Spring.spreadImpulses n xiAt cs ps isC) i).vel) = 0 :=
+  spread_two_body n xiAt cs ps isC a b ha hb h hps hc
+
+/-- `spring.collisions.resolve`: `Σ_i m_i · Δv_i = 0` for two-body contact lists -/
+theorem collide_momentum_spring (s : Sys K) (st : Spring.State K) (cs : List (Contact K))
+    (hcs : TwoBody s.numLinks cs) (hm : ∀ i, i < s.numLinks → nthS st.mass i ≠ 0) :
+    (∑ i ∈ Finset.range s.numLinks, V3.smul (nthS st.mass i) (nth (Spring.collide s st cs) i).vel) = 0 :=
+  collide_momentum s st cs hcs hm
+
+/-- `positional.collisions.resolve_position`: `Σ_i m_i · Δpos_i = 0` for ANY per-contact deltas that
+are opposite after weighting with the masses, for any number of bodies (no averaging here) -/
+theorem resolvePosition_momentum (n : Nat) (x_i : List (Tf K)) (cs : List (Contact K))
+    (dps : List (Positional.DTf K × Positional.DTf K)) (m : Nat → K) (hlen : dps.length = cs.length)
+    (hrel : ∀ cd ∈ cs.zip dps, ∃ a b : Nat, a < n ∧ b < n ∧ cd.1.link1 = (a : Int) ∧ cd.1.link2 = (b : Int)
+        ∧ V3.smul (m a) cd.2.1.pos + V3.smul (m b) cd.2.2.pos = 0) :
+    (∑ i ∈ Finset.range n,
+      V3.smul (m i) ((nth (Positional.positionSpread n x_i cs dps) i).pos - (nth x_i i).pos)) = 0 :=
+  positionSpread_momentum n x_i cs dps m hlen hrel
+
+/-- `positional.collisions.resolve_velocity`: `Σ_i m_i · Δv_i = 0` for two-body contact lists -/
+theorem resolveVelocity_momentum_positional (s : Sys K) (x_i : List (Tf K)) (xd_i xdPrev : List (Motion K))
+    (ii : List (M3 K)) (im : List K) (cs : List (Contact K)) (dl : List K) (m : Nat → K)
+    (hcs : TwoBody s.numLinks cs) (hdl : cs ≠ [] → dl.length = cs.length)
+    (hm : ∀ i, i < s.numLinks → m i * nthS im i = 1) :
+    (∑ i ∈ Finset.range s.numLinks,
+      V3.smul (m i) (nth (Positional.resolveVelocity s x_i xd_i xdPrev ii im cs dl) i).vel) = 0 :=
+  resolveVelocity_momentum s x_i xd_i xdPrev ii im cs dl m hcs hdl hm
+
+/-! ## whole steps and histories -/
+
+/-- **One `spring.pipeline.step` of a free-rooted system**: `P' = P + (Σ m_i)·dt·g`, for every
+state, every control, with `vel_damping = 0` (i.e. `exp(vel_damping·dt) = 1`) and contacts (if
+any) between two bodies; `P = Σ_i mass_i · xd_i.vel` with the pipeline's own
+`mass = link mass ** (1 - spring_mass_scale)`. -/
+theorem step_momentum_spring (inv : List (Tf K) → List (Motion K) → List K × List K)
+    (cf : List (Tf K) → List (Contact K)) (s : Sys K) (st : Spring.State K) (act : List K)
+    (h : FreeRooted s) (hlen : st.mass.length = s.numLinks)
+    (hm : ∀ i, i < s.numLinks → nthS st.mass i ≠ 0)
+    (hdamp : HasExp.exp (s.velDamping * s.dt) = (1 : K))
+    (hcs : TwoBody s.numLinks (cf st.x)) :
+    momentum (Spring.step inv cf s st act).mass (Spring.step inv cf s st act).xd_i
+      = momentum st.mass st.xd_i + V3.smul (totalMass st.mass * s.dt) s.gravity :=
+  spring_step_momentum inv cf s st act h hlen hm hdamp hcs
+
+/-- **One `positional.pipeline.step` of a free-rooted system**: `P' = P + (Σ m_i)·dt·g`. -/
+theorem step_momentum_positional (inv : List (Tf K) → List (Motion K) → List K × List K)
+    (cf : List (Tf K) → List (Contact K)) (s : Sys K) (st : Positional.State K) (act : List K)
+    (h : FreeRooted s) (hok : PosOK s st) (hlen : st.mass.length = s.numLinks)
+    (hdamp : HasExp.exp (s.velDamping * s.dt) = (1 : K)) (hdt : s.dt ≠ 0)
+    (hcs : TwoBody s.numLinks (cf (posX2 s st act))) :
+    momentum (Positional.step inv cf s st act).mass (Positional.step inv cf s st act).xd_i
+      = momentum st.mass st.xd_i + V3.smul (totalMass st.mass * s.dt) s.gravity :=
+  positional_step_momentum inv cf s st act h hok hlen hdamp hdt hcs
+
+/-- a control history applied to a spring state -/
+def runSpring (inv : List (Tf K) → List (Motion K) → List K × List K)
+    (cf : List (Tf K) → List (Contact K)) (s : Sys K) (st : Spring.State K) (acts : List (List K)) :
+    Spring.State K :=
+  acts.foldl (fun st a => Spring.step inv cf s st a) st
+
+/-- a control history applied to a positional state -/
+def runPositional (inv : List (Tf K) → List (Motion K) → List K × List K)
+    (cf : List (Tf K) → List (Contact K)) (s : Sys K) (st : Positional.State K) (acts : List (List K)) :
+    Positional.State K :=
+  acts.foldl (fun st a => Positional.step inv cf s st a) st
+
+/-- **Every step of every history (spring).**  After any control sequence of any length `T`,
+`P_T = P_0 + T·(Σ m_i)·dt·g` — even when the simulation itself is stiff or unstable. -/
+theorem history_momentum_spring (inv : List (Tf K) → List (Motion K) → List K × List K)
+    (cf : List (Tf K) → List (Contact K)) (s : Sys K) (h : FreeRooted s)
+    (hdamp : HasExp.exp (s.velDamping * s.dt) = (1 : K))
+    (hcs : ∀ x, TwoBody s.numLinks (cf x)) (acts : List (List K)) :
+    ∀ st : Spring.State K, st.mass.length = s.numLinks → (∀ i, i < s.numLinks → nthS st.mass i ≠ 0) →
+      momentum (runSpring inv cf s st acts).mass (runSpring inv cf s st acts).xd_i
+        = momentum st.mass st.xd_i
+          + V3.smul ((acts.length : K) * (totalMass st.mass * s.dt)) s.gravity := by
+  induction acts with
+  | nil =>
+    intro st _ _
+    simp only [runSpring, List.foldl_nil, List.length_nil, Nat.cast_zero, zero_mul, zero_smul']
+    exact (V3.add_zero' _).symm
+  | cons a acts ih =>
+    intro st hlen hm
+    have hstep := step_momentum_spring inv cf s st a h hlen hm hdamp (hcs st.x)
+    have hmass : (Spring.step inv cf s st a).mass = st.mass := rfl
+    have := ih (Spring.step inv cf s st a) (by rw [hmass]; exact hlen) (by rw [hmass]; exact hm)
+    simp only [runSpring, List.foldl_cons] at this ⊢
+    rw [this, hstep, hmass, List.length_cons, Nat.cast_succ, V3.add_assoc', ← add_smul']
+    congr 2
+    ring
+
+/-- **Every step of every history (positional).** -/
+theorem history_momentum_positional (inv : List (Tf K) → List (Motion K) → List K × List K)
+    (cf : List (Tf K) → List (Contact K)) (s : Sys K) (h : FreeRooted s)
+    (hdamp : HasExp.exp (s.velDamping * s.dt) = (1 : K)) (hdt : s.dt ≠ 0)
+    (hcs : ∀ x, TwoBody s.numLinks (cf x)) (acts : List (List K)) :
+    ∀ st : Positional.State K, PosOK s st → st.mass.length = s.numLinks →
+      momentum (runPositional inv cf s st acts).mass (runPositional inv cf s st acts).xd_i
+        = momentum st.mass st.xd_i
+          + V3.smul ((acts.length : K) * (totalMass st.mass * s.dt)) s.gravity := by
+  induction acts with
+  | nil =>
+    intro st _ _
+    simp only [runPositional, List.foldl_nil, List.length_nil, Nat.cast_zero, zero_mul, zero_smul']
+    exact (V3.add_zero' _).symm
+  | cons a acts ih =>
+    intro st hok hlen
+    have hstep := step_momentum_positional inv cf s st a h hok hlen hdamp hdt (hcs _)
+    have hmass : (Positional.step inv cf s st a).mass = st.mass := rfl
+    have hok' : PosOK s (Positional.step inv cf s st a) :=
+      ⟨hok.hlinks, by rw [hmass]; exact hok.hmass, by rw [hmass]; exact hok.hne⟩
+    have := ih (Positional.step inv cf s st a) hok' (by rw [hmass]; exact hlen)
+    simp only [runPositional, List.foldl_cons] at this ⊢
+    rw [this, hstep, hmass, List.length_cons, Nat.cast_succ, V3.add_assoc', ← add_smul']
+    congr 2
+    ring
+
+/-! ## rest case (partial) -/
+
+/-- what `rest_stays_at_rest_spring_partial` asks of one link: it is free, or it is a 1-dof link
+(hinge or slide) in a pure joint configuration inside its limits, with no joint-frame velocity.
+`l` is the link's slice of `(types, dofs, tau = 0)`. -/
+def RestLink (hasLimit : Bool) (j : Tf K) (jd : Motion K) (l : Kin.LinkIn K) : Prop :=
+  l.typ = .free ∨
+  ∃ d : DofP K, l.typ = .one ∧ l.dofs = [d] ∧ l.qd = [0] ∧ jd = ⟨⟨0, 0, 0⟩, ⟨0, 0, 0⟩⟩ ∧
+    (-- hinge: anchors coincide, child axis parallel to parent axis, angle inside the limits
+     (v3Any d.motion.vel = false ∧ j.pos = ⟨0, 0, 0⟩
+        ∧ V3.cross (frame1 d.motion).ang.r0 (rotate (frame1 d.motion).ang.r0 j.rot) = ⟨0, 0, 0⟩
+        ∧ (hasLimit = true → Spring.limDelta
+            (axisAngleAng j (frame1 d.motion).ang (frame1 d.motion).parity).psi d.lo d.hi = 0))
+     ∨ -- slide: unit axis, displaced along the axis only, not rotated, coordinate inside the limits
+     (v3Any d.motion.vel = true ∧ v3Any d.motion.ang = false ∧ V3.dot d.motion.vel d.motion.vel = 1
+        ∧ (∃ c : K, j.pos = V3.smul c d.motion.vel) ∧ j.rot = Q4.one
+        ∧ (hasLimit = true → Spring.limDelta (V3.dot j.pos d.motion.vel) d.lo d.hi = 0)))
+
+/-- the spring joint-frame force of a link satisfying `RestLink` is zero -/
+theorem jointForce_restLink (hasLimit : Bool) (lk : LinkP K) (j : Tf K) (jd : Motion K)
+    (l : Kin.LinkIn K) (h : RestLink hasLimit j jd l) :
+    Spring.jointForce hasLimit lk j jd l = ⟨0, 0⟩ := by
+  rcases h with hfree | ⟨d, ht, hd, hq, hjd, hcase⟩
+  · simp only [Spring.jointForce, hfree]
+  · simp only [Spring.jointForce, ht, hd, hq, hjd]
+    rcases hcase with ⟨h1, h2, h3, h4⟩ | ⟨h1, h2, h3, ⟨c, h4⟩, h5, h6⟩
+    · exact oneDof_rest_hinge hasLimit lk j d h1 h2 h3 h4
+    · exact oneDof_rest_slide hasLimit lk j d c h1 h2 h3 h4 h5 h6
+
+/-- **Newton's first law, spring pipeline (partial: free links and 1-dof links).**  A consistent
+state with zero velocities and unit link quaternions, in a system without gravity, actuators and
+contact, all of whose links are free or 1-dof links in a pure joint configuration inside their
+limits, is returned *unchanged* by `spring.pipeline.step`.  (Not covered: 2- and 3-dof links — the
+Euler-angle extraction identities of C08's stretch goal; see `rest_stays_at_rest_springStmt`.) -/
+theorem rest_stays_at_rest_spring_partial (inv : List (Tf K) → List (Motion K) → List K × List K)
+    (cf : List (Tf K) → List (Contact K)) (s : Sys K) (st : Spring.State K) (act : List K)
+    (hc : SpringConsistent inv s st) (hq : Quiet s)
+    (hrest : ∀ i, i < s.numLinks → nth st.xd i = ⟨0, 0⟩)
+    (hunit : ∀ i, i < s.numLinks → Q4.normSq (nth st.x i).rot = 1)
+    (hcf : cf st.x = [])
+    (hlinks : ∀ i, i < s.numLinks → ∀ l,
+      (Kin.linkSlices s.types ([] : List K) (List.replicate s.nv 0) s.dofs)[i]? = some l →
+        RestLink s.hasLimit (nth st.j i) (nth st.jd i) l) :
+    Spring.step inv cf s st act = st := by
+  apply spring_rest_of_zero_jointForces inv cf s st act hc hq hrest hunit hcf
+  intro i hi
+  unfold Spring.jointForces
+  rw [nth_tab _ hi]
+  cases hl : (Kin.linkSlices s.types ([] : List K) (List.replicate s.nv 0) s.dofs)[i]? with
+  | none => rfl
+  | some l => exact jointForce_restLink _ _ _ _ _ (hlinks i hi l hl)
+
+/- FULL statements (not proved; what is missing is named in notes/C04.md):
+
+def rest_stays_at_rest_springStmt : Prop :=
+  ∀ (inv : …) (cf : …) (s : Sys ℝ) (q : List ℝ) (act : List ℝ),
+    s.WF = true → Quiet s → C01.KinOK s q (zeros s.nv) → InsideLimits s q →
+    (∀ x, cf x = []) → (∀ j jd, inv j jd = Inv.inverse s j jd) →
+    Spring.step inv cf s (Spring.init s q (zeros s.nv)) act = Spring.init s q (zeros s.nv)
+    -- every link type; needs world_to_joint (forward q) = jcalc q (C08 `worldToJoint_forward`)
+    -- and, for 2- and 3-dof links, the Euler-angle identities psi/theta/phi (jcalc q) = q.
+
+def rest_stays_at_rest_positionalStmt : Prop :=
+  the same with Positional.step / Positional.init; additionally needs
+  `threeDofJointUpdate (jcalc q) (sphericalize …) = 0` inside the limits (atan2 / half-angle
+  identities for the three limit axes).  On the pinned tree it is FALSE for a left-handed
+  three-hinge stack with a limited middle joint (`positional_lefthanded_limit_witness` is the
+  failing input reported by the harness, defect D7 in notes/C04.md).
+
+def rest_stays_at_rest_generalizedStmt : Prop :=
+  generalized pipeline: `qf_smooth = 0` at `qd = 0`, `g = 0` (RNE bias vanishes) ⇒ `qdd = 0`
+  (belongs to C02's model; observed by the harness on every run).
+-/
+
+end forces
+
+/-! ## the three-body remark, non-vacuity -/
+section witness
+
+def cAB : Contact ℚ := ⟨0, 1, -1, ⟨0, 0, 0⟩, ⟨1, 0, 0⟩, 1, 0⟩
+def cAC : Contact ℚ := ⟨0, 2, -1, ⟨0, 0, 0⟩, ⟨1, 0, 0⟩, 1, 0⟩
+def pX : Force ℚ := ⟨⟨0, 0, 0⟩, ⟨1, 0, 0⟩⟩
+
+/-- **Remark (outside the property's two-body quantifier).**  With three bodies — A–B and A–C in
+contact, the same unit impulse on both — the per-link averaging divides A's total by `2 + 1e-8`
+and B's, C's by `1 + 1e-8`: the impulses no longer sum to zero
+(`2/(2+1e-8) − 2/(1+1e-8) ≠ 0`). -/
+theorem three_body_averaging_counterexample :
+    ((Spring.spreadImpulses 3 (fun _ => (default : Tf ℚ)) [cAB, cAC] [pX, pX] [1, 1]).map
+      (·.vel.x)).sum ≠ 0 := by
+  simp [Spring.spreadImpulses, segmentSum, tab, nth, nthS, cAB, cAC, pX, HasF32.f32, Tf.doForce, tfPos,
+    rotate, List.range_succ, Q4.one, V3.cross, V3.dot, Q4.vec, List.sum_cons, List.filterMap_cons]
+  norm_num
+
+/-- … while the same two contacts between the *same* two bodies do sum to zero (instance of
+`collision_momentum_two_body`; also shows its hypotheses are satisfiable) -/
+example (c : Contact ℝ) (h1 : c.link1 = 0) (h2 : c.link2 = 1) (p q : Force ℝ) (n1 n2 : ℝ) :
+    (∑ i ∈ Finset.range 3,
+      (nth (Spring.spreadImpulses 3 (fun _ => (default : Tf ℝ)) [c, c] [p, q] [n1, n2]) i).vel) = 0 :=
+  collision_momentum_two_body 3 _ [c, c] [p, q] [n1, n2] 0 1 (by norm_num) (by norm_num)
+    (by intro c' hc; simp at hc; subst hc; exact ⟨by simpa using h1, by simpa using h2⟩) rfl rfl
+
+/-- a free-rooted forest: a free root with a chain of two 1-dof links, and a second free root -/
+def exSys : Sys ℝ :=
+  { types := [.free, .one, .one, .free], parents := [-1, 0, 1, -1], links := [], dofs := [],
+    hasLimit := false, acts := [], gravity := ⟨0, 0, -9.81⟩, dt := 0.002, velDamping := 0,
+    angDamping := 0, baumgarteErp := 0.1, springMassScale := 0, springInertiaScale := 0,
+    jointScaleAng := 0.2, jointScalePos := 0.5, collideScale := 1 }
+
+example : FreeRooted exSys := by
+  refine ⟨rfl, ?_, ?_⟩
+  · intro i hi
+    have : i < 4 := hi
+    interval_cases i <;> simp [parentOf, exSys]
+  · intro i hi
+    have : i < 4 := hi
+    interval_cases i <;> simp [parentOf, exSys]
+
+/-- `vel_damping = 0` gives the damping factor 1 -/
+example : HasExp.exp (exSys.velDamping * exSys.dt) = (1 : ℝ) := by
+  simp [exSys, HasExp.exp]
+
+/-- a two-body contact list, and the empty one -/
+example : TwoBody 4 [(⟨0, 3, -0.01, ⟨0, 0, 0⟩, ⟨0, 0, 1⟩, 1, 0⟩ : Contact ℝ),
+    ⟨0, 3, 0.02, ⟨0, 0, 0⟩, ⟨0, 0, 1⟩, 1, 0⟩] :=
+  Or.inr ⟨0, 3, by norm_num, by norm_num, by intro c hc; simp at hc; rcases hc with rfl | rfl <;> exact ⟨rfl, rfl⟩⟩
+example : TwoBody 4 ([] : List (Contact ℝ)) := Or.inl rfl
+
+/-- all hypotheses of `history_momentum_spring` hold together: after any control history the
+momentum of `exSys` (masses 1, 2, 3, 4) is `P_0 + T · 10 · dt · g` -/
+example (inv : List (Tf ℝ) → List (Motion ℝ) → List ℝ × List ℝ) (st : Spring.State ℝ)
+    (hmass : st.mass = [1, 2, 3, 4]) (acts : List (List ℝ)) :
+    momentum (runSpring inv (fun _ => []) exSys st acts).mass (runSpring inv (fun _ => []) exSys st acts).xd_i
+      = momentum st.mass st.xd_i
+        + V3.smul ((acts.length : ℝ) * (totalMass st.mass * exSys.dt)) exSys.gravity := by
+  apply history_momentum_spring inv (fun _ => []) exSys
+  · refine ⟨rfl, ?_, ?_⟩
+    · intro i hi
+      have : i < 4 := hi
+      interval_cases i <;> simp [parentOf, exSys]
+    · intro i hi
+      have : i < 4 := hi
+      interval_cases i <;> simp [parentOf, exSys]
+  · simp [exSys, HasExp.exp]
+  · intro x; exact Or.inl rfl
+  · rw [hmass]; rfl
+  · intro i hi
+    have : i < 4 := hi
+    rw [hmass]
+    interval_cases i <;> simp [nthS]
+
+/-- `RestLink` is satisfiable by a hinge: axis z, rotated by any unit quaternion about z -/
+example (c sn : ℝ) :
+    V3.cross (⟨0, 0, 1⟩ : V3 ℝ) (rotate ⟨0, 0, 1⟩ (⟨c, 0, 0, sn⟩ : Q4 ℝ)) = ⟨0, 0, 0⟩ := by
+  simp [rotate, V3.cross, V3.dot, Q4.vec]
+
+end witness
 
 end Brax.C04
